@@ -328,6 +328,13 @@ def origin(prog, f, op, depth=12):
                     go_place({"l": rv["place"]["l"], "p": rv["place"]["p"]}, d - 1)
             elif rv["k"] == "aggregate":
                 res.add(("agg", rv.get("adt") or rv.get("ak"), rv.get("variant"), suffix))
+                # a field read back from a locally built tuple: continue into the component (`let (a, b) = match x { P => (p, q), .. }`)
+                if rv.get("ak") == "tuple" and proj and proj[0]["k"] == "field" and isinstance(proj[0].get("i"), int) and proj[0]["i"] < len(rv.get("ops", [])):
+                    o = rv["ops"][proj[0]["i"]]
+                    if o["k"] in ("copy", "move"):
+                        go_place({"l": o["place"]["l"], "p": o["place"]["p"] + proj[1:]}, d - 1)
+                    elif o["k"] == "const":
+                        res.add(("const", o.get("v", o.get("str", o.get("zst"))), suffix))
             elif rv["k"] == "cast":
                 o = rv["op"]
                 if o["k"] in ("copy", "move"):
@@ -360,3 +367,30 @@ def free_node_key(prog):
         if mir["arg_count"] == 2 and prog.tys(mir["locals"][1]["ty"]).startswith("&mut crate::arena::Arena<") and prog.tys(mir["locals"][2]["ty"]) == "crate::id::NodeId":
             cands.append(k)
     return cands[0] if len(cands) == 1 else default
+
+
+NEW_NODE = "crate::arena::Arena<T>::new_node"
+APPEND_VALUE = "crate::id::NodeId::append_value"
+
+
+def slot_pushers(prog, idx):
+    """Functions that grow the slot vector (Vec<Node<T>>::push)."""
+    out = set()
+    for k, cs in idx.calls.items():
+        for bi, t, n in cs:
+            if n == "alloc::vec::Vec::<T, A>::push":
+                targs = [prog.tys(a) for a in t["callee"].get("args", []) if isinstance(a, int)]
+                if targs and targs[0].startswith("crate::node::Node<"):
+                    out.add(k)
+    return out
+
+
+def alloc_gates(prog, idx=None):
+    """The allocation entry points whose bodies E2 decides: Arena::new_node always; NodeId::append_value as well when it allocates through a private path of
+    its own instead of calling new_node (a slot is pushed in a function that is not reachable only through new_node).  Whoever uses the larger set must also
+    decide the allocation obligations on append_value (E2 entry `append_alloc`, e2props.alloc_obligations)."""
+    idx = idx or Index(prog)
+    pushers = slot_pushers(prog, idx)
+    if pushers and all(idx.gated(k, {NEW_NODE}) for k in pushers):
+        return {NEW_NODE}
+    return {NEW_NODE, APPEND_VALUE}
